@@ -304,6 +304,9 @@ type c03Tx struct {
 	Accepted []string
 	Final    []c03Reply // DATA/BDAT final replies (LMTP: one per accepted recipient)
 	Ended    string     // data rset mail quit drop cut
+	// go-smtp still held recipients of an abandoned transaction (repeated EHLO/LHLO) when the data
+	// command of this one was issued
+	StaleWire bool
 }
 
 type c03Result struct {
@@ -347,6 +350,10 @@ func c03Play(sc c03Scenario, addr string, rec *verifx.Recorder) (res c03Result) 
 	}
 	chunking := false
 	var tx *c03Tx
+	// What go-smtp holds as the recipients of the connection: appended by every accepted RCPT, cleared by
+	// RSET and at the end of DATA / BDAT - but not by a repeated EHLO/LHLO (go-smtp's handleGreet does not
+	// reset the envelope). LMTP sends one final reply per entry of this list, in this order.
+	var wire []*c03Tx
 	pending := []c03Step{}
 	sentAt := []int{} // monitor log position when each pending command was sent
 	endAt := -1       // position of the command that ends the transaction, when known
@@ -378,11 +385,15 @@ func c03Play(sc c03Scenario, addr string, rec *verifx.Recorder) (res c03Result) 
 				tx = &c03Tx{Start: sent, Sender: st.Addr}
 			}
 		case "RCPT":
+			if rep.Code/100 == 2 {
+				wire = append(wire, tx)
+			}
 			if rep.Code/100 == 2 && tx != nil {
 				tx.Accepted = append(tx.Accepted, st.Addr)
 			}
 		case "RSET":
 			if rep.Code/100 == 2 {
+				wire = nil
 				endTx("rset")
 			}
 		}
@@ -446,12 +457,28 @@ func c03Play(sc c03Scenario, addr string, rec *verifx.Recorder) (res c03Result) 
 			}
 			payload := c03Payloads[st.Payload]
 			nFinal := 1
-			if sc.LMTP && tx != nil && len(tx.Accepted) > 0 {
-				nFinal = len(tx.Accepted)
+			if sc.LMTP && len(wire) > 0 {
+				nFinal = len(wire)
+			}
+			// final reply k belongs to wire[k]; replies for recipients of an abandoned transaction (kept by
+			// go-smtp across a repeated LHLO) are counted and not attributed to the current transaction
+			for _, w := range wire {
+				if tx != nil && w != tx {
+					tx.StaleWire = true
+				}
+			}
+			final := func(k int, rep c03Reply) {
+				if sc.LMTP && len(wire) > 0 && (k >= len(wire) || wire[k] != tx || tx == nil) {
+					ev.Get("C03").AddExtra("observed_not_asserted_lmtp_reply_for_recipient_of_abandoned_transaction", 1)
+					return
+				}
+				if tx != nil {
+					tx.Final = append(tx.Final, rep)
+				}
 			}
 			// A BDAT command that the server refuses outright (no accepted recipient) leaves its chunk
 			// unread on the wire, which desynchronises the dialogue; use DATA in that case.
-			if st.Op == "BDAT" && chunking && tx != nil && len(tx.Accepted) > 0 {
+			if st.Op == "BDAT" && chunking && tx != nil && len(tx.Accepted) > 0 && len(wire) > 0 {
 				off := 0
 				failed := false
 				for i, sz := range st.Chunks {
@@ -482,12 +509,16 @@ func c03Play(sc c03Scenario, addr string, rec *verifx.Recorder) (res c03Result) 
 							return
 						}
 						res.Replies = append(res.Replies, rep)
-						if last && tx != nil {
-							tx.Final = append(tx.Final, rep)
+						if last {
+							final(k, rep)
 						}
 						if rep.Code/100 != 2 {
 							failed = true
-							break
+							// per-recipient LMTP replies start with the recipient in angle brackets and are
+							// all sent; a reply to the BDAT command itself stands alone
+							if !(last && sc.LMTP && strings.HasPrefix(strings.TrimSpace(strings.TrimPrefix(strings.TrimSpace(rep.Text), rep.Ench)), "<")) {
+								break
+							}
 						}
 					}
 					if failed || last {
@@ -495,6 +526,7 @@ func c03Play(sc c03Scenario, addr string, rec *verifx.Recorder) (res c03Result) 
 					}
 				}
 				if failed || !st.NoLast {
+					wire = nil
 					endTx("data")
 				}
 				continue
@@ -529,10 +561,9 @@ func c03Play(sc c03Scenario, addr string, rec *verifx.Recorder) (res c03Result) 
 					return
 				}
 				res.Replies = append(res.Replies, rep)
-				if tx != nil {
-					tx.Final = append(tx.Final, rep)
-				}
+				final(k, rep)
 			}
+			wire = nil
 			endTx("data")
 		}
 	}
@@ -734,7 +765,7 @@ func c03Run(sc c03Scenario) (vs []ev.V) {
 				r := tx.Accepted[i]
 				clean, _ := address.CleanDomain(r)
 				tgs := c03Targets(sc, r)
-				if !anyCommitErr && len(tgs) > 0 {
+				if !anyCommitErr && len(tgs) > 0 && !tx.StaleWire {
 					all, some, how := true, false, ""
 					for _, tg := range tgs {
 						d, h := delivered(tg, clean)
@@ -758,6 +789,12 @@ func c03Run(sc c03Scenario) (vs []ev.V) {
 								if e.Op == "commit" && e.Err != "" {
 									shape = "commit-failed-after-per-recipient-status"
 								}
+							}
+							if tx.StaleWire {
+								// go-smtp keeps the recipients of the transaction abandoned by a repeated LHLO: it expects
+								// statuses for them, hands the first status of a repeated address to the stale entry and
+								// fills what is left with "250 OK"
+								shape = "stale-recipients-kept-by-go-smtp-after-repeated-LHLO"
 							}
 							vs = append(vs, ev.Vf("reply:lmtp-success-without-commit:"+shape, "transaction %d: recipient %s answered %d but target %s did not commit it (status error: %v)\n%s", ti, r, f.Code, tg, statusErr[tg+"|"+clean], dialog))
 						}
@@ -842,7 +879,8 @@ func c03Run(sc c03Scenario) (vs []ev.V) {
 		for d := range doms {
 			got := 0
 			for i := 0; i < sc.LimitN; i++ {
-				ctx, cancel := context.WithTimeout(context.Background(), 60*time.Millisecond)
+				// free permits are granted at once; the time-out only matters when one leaked (generous: the machine may be loaded)
+				ctx, cancel := context.WithTimeout(context.Background(), 1500*time.Millisecond)
 				err := endp.limits.TakeMsg(ctx, res.ClientIP, d)
 				cancel()
 				if err != nil {
